@@ -19,6 +19,8 @@ CHUNK = 40
 
 SHIFTS = [1, -1, 0x10, -0x10, 0x100, -0x100, 0x1000, -0x1000, 0x2F, 0xB000]
 BASE_ORG = 0x2000
+LOW_ORG = 1                      # second base origin: the bottom of memory, where label-n can fall below 0
+LOW_SHIFTS = [-1, 1, 0x4F]
 RENAMES = [["Q", "ZZ9", "LOOP1", "a1"], ["SU", "XS", "PCX", "DPY"], ["XS", "SU", "a1", "Q"], ["PCRL", "AB", "DD", "CCX"]]
 FORMATS = ["space1", "tabs", "space8", "nocomment", "comment.x", "comment.hostile", "mnem.lower", "mnem.mixed", "trailing.ws"]
 ABS_TAGS = {"ext.lbl", "ext.lbl.p", "ext.lbl+1", "imm.lbl", "imm.lbl.p", "extind.lbl", "idx.lbl", "idx.lbl.p", "ind.lbl", "imm.lbl+1",
@@ -43,7 +45,23 @@ def base_programs(tier):
             yield case
 
 
+LOWTAGS = ["inh1", "rmb1", "fcb1", "pcr.lbl", "pcr.lbl+2", "pcr.lbl-1.ind", "pcr.lbl-3", "pcr.lbl.ind", "bra", "bra.lbl+1", "bra.lbl-2", "lbne"]
+LOWTAGS3 = ["inh1", "rmb1", "pcr.lbl-3", "pcr.lbl-1.ind", "bra.lbl-2", "pcr.lbl+2"]
+
+
+def low_programs(tier):
+    """programs for the bottom of memory: relative references label, label+n, label-n (label-n may fall below 0)"""
+    for n, tags in ((1, LOWTAGS), (2, LOWTAGS), (3, LOWTAGS if tier == "thorough" else LOWTAGS3)):
+        for tup in itertools.product(tags, repeat=n):
+            for case in c02.programs_for(tup, ("all",)):
+                if "UNDEF" not in case["bind"]:
+                    yield case
+
+
 def cases(tier, seed):
+    for case in low_programs(tier):
+        for d in LOW_SHIFTS:
+            yield {"tags": case["tags"], "bind": case["bind"], "tr": "shift", "arg": d, "org": LOW_ORG}
     # dir.lbl (<label) is invalid by itself for labels above $FF, which every label of a program at $2000 is
     suffixes = [t[0] for t in c02.T if not t[0].startswith("org") and t[0] != "dir.lbl"]
     for case in base_programs(tier):
@@ -52,6 +70,8 @@ def cases(tier, seed):
         base = {"tags": case["tags"], "bind": case["bind"]}
         for d in SHIFTS:
             yield dict(base, tr="shift", arg=d)
+        for d in LOW_SHIFTS:
+            yield dict(base, tr="shift", arg=d, org=LOW_ORG)
         for i in range(len(RENAMES)):
             yield dict(base, tr="rename", arg=i)
         for f in FORMATS:
@@ -161,7 +181,7 @@ def decode_statements(out, lines):
 def check_case(case):
     lines0, labels = base_lines(case)
     tr, arg = case["tr"], case["arg"]
-    cell = "{}|{}|{}".format(tr, arg if tr != "rename" else "map{}".format(arg),
+    cell = "{}|{}|{}".format(tr + ("@{}".format(case["org"]) if "org" in case else ""), arg if tr != "rename" else "map{}".format(arg),
                              case.get("big") or ("two:{}>{}".format(case["two"][0], case["two"][1]) if "two" in case else
                                                   "three:{}".format(">".join(case["three"][0])) if "three" in case else ",".join(case["tags"])))
     res = {"nontrivial": False, "outcome": "skip", "state": "skip"}
@@ -171,7 +191,10 @@ def check_case(case):
         viol.append({"component": "metamorphic", "cell": cell, "symptom": symptom, "expected": str(expected)[:160], "observed": str(observed)[:160],
                      "input": dict(case, base=lines0)})
 
-    org = BASE_ORG
+    org = case.get("org", BASE_ORG)
+    if org != BASE_ORG and any(abs_statement(case, i, lines0) for i in range(len(lines0))):
+        # below $100 the width of an absolute reference (direct / 5-bit / 8-bit offset) legitimately depends on the label's value
+        return res
     base = [" ORG ${:04X}".format(org)] + lines0
     ref = common.assemble_confirm(base)
     if ref["kind"] != "OK":
@@ -181,6 +204,8 @@ def check_case(case):
     if tr == "shift":
         new_org = org + arg
         if (new_org < 0x100) != (org < 0x100) or new_org + len(ref["image"]) > 0xFFFF or new_org < 0:
+            return res
+        if org < 0x100 and max(org, new_org) + len(ref["image"]) > 0x100:
             return res
         out = common.assemble_confirm([" ORG ${:04X}".format(new_org)] + lines0)
         if out["kind"] != "OK":
@@ -281,7 +306,7 @@ def describe(tier):
         "alphabet": "base programs: every accepted 1- and 2-statement sequence of C02's core alphabet (no ORG) with every label binding, " +
                     ("every 3-statement sequence" if tier == "thorough" else "3-statement sequences over a 9-template slice") +
                     ", README example, cross-reference program, interacting-PCR program, and families of two and three mutually dependent label,PCR "
-                    "statements (every reference pattern over 5-6 labels x gaps around the 8/16-bit limit) with PC-relative / branch statements appended; transformations: origin shifts {} from $2000; 4 label "
+                    "statements (every reference pattern over 5-6 labels x gaps around the 8/16-bit limit) with PC-relative / branch statements appended; transformations: origin shifts {} from $2000 and shifts -1 +1 +$4F from origin $0001 (programs without absolute label references, wholly below $100, plus every 1-3 statement program over 12 relative-reference templates label / label+n / label-n where label-n may fall below 0); 4 label "
                     "bijections onto names incl. SU XS PCX DPY a1 PCRL CCX; formats {}; every non-ORG statement template of C02 appended".format(SHIFTS, FORMATS),
         "bound": "one transformation per run (the menu is applied exhaustively to every base program)",
         "oracle": "shift: identical sizes, every byte identical except the 16-bit operand of statements that reference an own label absolutely, which "
